@@ -806,7 +806,9 @@ class Models(object):
 
     def opaque_call(self, ev, fty, name, args, cx):
         self.opaque[name] = self.opaque.get(name, 0) + 1
-        out = mk("call", name, *args)
+        # what a mutable argument held before the call is part of the summary (trailing `prior` args)
+        extra = [mk("prior", i, ev.read(place_of_ref(a))) for i, a in enumerate(args) if is_ref(a)]
+        out = mk("call", name, *(list(args) + extra))
         for i, a in enumerate(args):
             if is_ref(a):
                 ev.write(place_of_ref(a), mk("havoc", out, i))
